@@ -1283,9 +1283,33 @@ Proof.
   split; [vm_compute; reflexivity|]. split; vm_compute; reflexivity.
 Qed.
 
+(* a computable check of well-formedness *)
+Definition wfb (s : st) : bool :=
+  forallb (fun e => N.ltb (uid e) (next s)) (ents s)
+  && forallb (fun wud => match get_ent (fst (fst wud)) (snd (fst wud)) (ents s) with Some _ => true | None => false end) (file s).
+
+Lemma get_ent_in w u l e : get_ent w u l = Some e -> In e l.
+Proof.
+  induction l as [|x r IH]; simpl; [discriminate|]. destruct (same_ent w u x); [intros H; inversion H; left; reflexivity | intros H; right; apply IH; exact H].
+Qed.
+
+Lemma fget_in w u f d : fget w u f = Some d -> In (w, u, d) f.
+Proof.
+  induction f as [|[[w' u'] d'] r IH]; simpl; [discriminate|]. destruct (Bool.eqb w w' && N.eqb u u') eqn:E.
+  - intros H. inversion H; subst. apply andb_true_iff in E. destruct E as [E1 E2]. apply eqb_prop in E1. apply N.eqb_eq in E2. subst. left. reflexivity.
+  - intros H. right. apply IH. exact H.
+Qed.
+
+Lemma wfb_sound s : wfb s = true -> wf s.
+Proof.
+  unfold wfb. rewrite andb_true_iff, !forallb_forall. intros [H1 H2]. split.
+  - intros w u e G. destruct (get_ent_some _ _ _ _ G) as [_ U]. apply get_ent_in in G. apply H1 in G. apply N.ltb_lt in G. rewrite <- U. exact G.
+  - intros w u G. destruct (fget w u (file s)) as [d|] eqn:F; [|reflexivity]. apply fget_in in F. apply H2 in F. simpl in F. rewrite G in F. discriminate.
+Qed.
+
 (* non-vacuity of the invariant: linking two freshly created receivers/transmitters establishes it *)
 Example inv_nonvacuous :
-  exists s, run s0 h_tem = Ok s /\ inv s false 1%N 2%N /\ wf s.
+  exists s, run s0 h_tem = Ok s /\ inv s false 1%N 4%N /\ wf s.
 Proof.
   eexists. split; [vm_compute; reflexivity|]. split.
   - eexists _, _, _. split; [vm_compute; reflexivity|]. split; [vm_compute; reflexivity|]. split; [discriminate|].
@@ -1297,13 +1321,22 @@ Proof.
       intros k wl Hin. vm_compute in Hin. repeat (destruct Hin as [Hin|Hin]; [inversion Hin; subst; reflexivity|]). contradiction.
     + unfold live_ok. simpl md. split; [vm_compute; reflexivity|]. split; [reflexivity|].
       intros k wl Hin. vm_compute in Hin. repeat (destruct Hin as [Hin|Hin]; [inversion Hin; subst; reflexivity|]). contradiction.
-  - split.
-    + intros w u e G. vm_compute in G. destruct w.
-      * discriminate.
-      * destruct (N.eqb u 1) eqn:E1; [apply N.eqb_eq in E1; subst; reflexivity|].
-        destruct (N.eqb u 2) eqn:E2; [apply N.eqb_eq in E2; subst; reflexivity|].
-        exfalso. revert G. unfold same_ent. simpl. intros G.
-        destruct u as [|p]; [discriminate|]. destruct p as [p|p|]; try destruct p; simpl in *; try discriminate.
-    + intros w u G. destruct w; [reflexivity|]. vm_compute. vm_compute in G.
-      destruct u as [|p]; [reflexivity|]. destruct p as [p|p|]; try destruct p; simpl in *; try reflexivity; try discriminate.
+  - apply wfb_sound. vm_compute. reflexivity.
+Qed.
+
+(* non-vacuity of the copy theorem: its hypotheses hold on the linked TEM pair and the copy succeeds, creating the pair (7, 10) *)
+Example copy_nonvacuous :
+  exists s ea s1,
+    run s0 h_tem = Ok s /\ wf s /\ inv s false 1%N 4%N /\ get_ent false 1%N (ents s) = Some ea /\ is_large (fam ea) = false
+    /\ (forall fd, sees s ea = Some fd -> link_keys_hold_uids fd)
+    /\ em_copy s ea false None = Ok (s1, 7%N) /\ map uid (ents s1) = [1; 4; 7; 10]%N.
+Proof.
+  destruct inv_nonvacuous as (s & Hr & Hi & Hw).
+  assert (Hs : run s0 h_tem = Ok s) by exact Hr. vm_compute in Hr. injection Hr as Es. subst s.
+  eexists _, _, _. split; [vm_compute; reflexivity|]. split; [exact Hw|]. split; [exact Hi|].
+  split; [vm_compute; reflexivity|]. split; [reflexivity|]. split.
+  - intros fd Hfd. vm_compute in Hfd. injection Hfd as Efd. subst fd. intros k fv Hin Hk.
+    simpl in Hin. repeat (destruct Hin as [Hin|Hin]; [injection Hin as Ek Ev; subst k fv; try (eexists; reflexivity); destruct Hk; discriminate|]).
+    contradiction.
+  - split; vm_compute; reflexivity.
 Qed.
